@@ -111,3 +111,126 @@ Proof.
   - apply fexp_correct; reflexivity.
   - apply generic_format_abs, F64_B2R.
 Qed.
+
+(* ---------- the two operations on non-negative finite numbers ---------- *)
+
+Lemma minus_spec (X Y : bf64) : BinarySingleNaN.is_finite X = true -> BinarySingleNaN.is_finite Y = true ->
+  0 <= B2R X -> 0 <= B2R Y ->
+  B2R (Bminus mode_NE X Y) = rnd64 (B2R X - B2R Y) /\ BinarySingleNaN.is_finite (Bminus mode_NE X Y) = true
+  /\ (B2R Y <= B2R X -> Bsign X = false -> Bsign (Bminus mode_NE X Y) = false).
+Proof.
+  intros Hx Hy Px Py. pose proof (Bminus_correct 53 1024 _ _ mode_NE X Y Hx Hy) as C.
+  assert (NO : Rlt_bool (Rabs (rnd64 (B2R X - B2R Y))) (bpow radix2 1024) = true).
+  { destruct (Rle_lt_dec (B2R Y) (B2R X)).
+    - apply (no_overflow _ X). rewrite !Rabs_pos_eq by lra. lra.
+    - apply (no_overflow _ Y). rewrite Rabs_left by lra. rewrite Rabs_pos_eq by lra. lra. }
+  rewrite NO in C. destruct C as [C1 [C2 C3]]. split; [exact C1|]. split; [exact C2|].
+  intros Hle Hs. rewrite C3. destruct (Rcompare_spec (B2R X - B2R Y) 0); auto; [lra|].
+  now rewrite Hs.
+Qed.
+
+Lemma plus_spec_bounded (X Y Z : bf64) : BinarySingleNaN.is_finite X = true -> BinarySingleNaN.is_finite Y = true ->
+  0 <= B2R X -> 0 <= B2R Y -> Bsign X = false -> Bsign Y = false -> B2R X + B2R Y <= B2R Z ->
+  B2R (Bplus mode_NE X Y) = rnd64 (B2R X + B2R Y) /\ BinarySingleNaN.is_finite (Bplus mode_NE X Y) = true
+  /\ Bsign (Bplus mode_NE X Y) = false.
+Proof.
+  intros Hx Hy Px Py Sx Sy Hz. pose proof (Bplus_correct 53 1024 _ _ mode_NE X Y Hx Hy) as C.
+  assert (NO : Rlt_bool (Rabs (rnd64 (B2R X + B2R Y))) (bpow radix2 1024) = true).
+  { apply (no_overflow _ Z). rewrite !Rabs_pos_eq by lra. lra. }
+  rewrite NO in C. destruct C as [C1 [C2 C3]]. split; [exact C1|]. split; [exact C2|].
+  rewrite C3, Sx, Sy. destruct (Rcompare_spec (B2R X + B2R Y) 0); auto. lra.
+Qed.
+
+(* w < fl(M - m)  gives  w <= M - m  exactly: rounding is monotone and w is a binary64 number *)
+Lemma lt_rnd_le (w d : R) : F64 w -> w < rnd64 d -> w <= d.
+Proof.
+  intros Fw H. destruct (Rle_lt_dec w d) as [|C]; [assumption|exfalso].
+  assert (rnd64 d <= rnd64 w) by (apply rnd_mono; lra). rewrite (rnd_id w Fw) in H0. lra.
+Qed.
+
+(* ---------- the facts ---------- *)
+
+Lemma fact_sub_le x w : okV x -> okV w -> SFltb x (f64_sub x w) = false.
+Proof.
+  intros Hx Hw. destruct (lift x Hx) as [X [<- [Fx [Sx Px]]]]. destruct (lift w Hw) as [Wb [<- [Fw [Sw Pw]]]].
+  rewrite sub_link. destruct (minus_spec X Wb Fx Fw Px Pw) as [R1 [R2 _]].
+  apply ltb_false_of_le; auto. rewrite R1. rewrite <- (rnd_id (B2R X)) at 2 by apply F64_B2R.
+  apply rnd_mono. lra.
+Qed.
+
+Lemma fact_within_sub M m w : okV M -> okV m -> okV w ->
+  SFltb w (f64_sub M m) = true -> SFltb (f64_sub M w) m = false.
+Proof.
+  intros HM Hm Hw. destruct (lift M HM) as [MB [<- [FM [SM PM]]]]. destruct (lift m Hm) as [mB [<- [Fm [Sm Pm]]]].
+  destruct (lift w Hw) as [Wb [<- [Fw [Sw Pw]]]].
+  rewrite !sub_link. destruct (minus_spec MB mB FM Fm PM Pm) as [R1 [R2 _]].
+  destruct (minus_spec MB Wb FM Fw PM Pw) as [Q1 [Q2 _]].
+  intros H. apply ltb_true_lt in H; auto. rewrite R1 in H.
+  apply lt_rnd_le in H; [|apply F64_B2R].
+  apply ltb_false_of_le; auto. rewrite Q1. rewrite <- (rnd_id (B2R mB)) at 1 by apply F64_B2R.
+  apply rnd_mono. lra.
+Qed.
+
+Lemma fact_within_add M m w : okV M -> okV m -> okV w ->
+  SFltb w (f64_sub M m) = true -> SFltb M (f64_add m w) = false.
+Proof.
+  intros HM Hm Hw. destruct (lift M HM) as [MB [<- [FM [SM PM]]]]. destruct (lift m Hm) as [mB [<- [Fm [Sm Pm]]]].
+  destruct (lift w Hw) as [Wb [<- [Fw [Sw Pw]]]].
+  rewrite sub_link, add_link'. destruct (minus_spec MB mB FM Fm PM Pm) as [R1 [R2 _]].
+  intros H. apply ltb_true_lt in H; auto. rewrite R1 in H.
+  apply lt_rnd_le in H; [|apply F64_B2R].
+  destruct (plus_spec_bounded mB Wb MB Fm Fw Pm Pw Sm Sw) as [Q1 [Q2 _]]; [lra|].
+  apply ltb_false_of_le; auto. rewrite Q1. rewrite <- (rnd_id (B2R MB)) at 1 by apply F64_B2R.
+  apply rnd_mono. lra.
+Qed.
+
+Lemma fact_sub_anti x w w' : okV x -> okV w -> okV w' ->
+  SFltb w' w = false -> SFltb (f64_sub x w) (f64_sub x w') = false.
+Proof.
+  intros Hx Hw Hw'. destruct (lift x Hx) as [X [<- [Fx [Sx Px]]]]. destruct (lift w Hw) as [Wb [<- [Fw [Sw Pw]]]].
+  destruct (lift w' Hw') as [Wb' [<- [Fw' [Sw' Pw']]]].
+  intros H. apply ltb_false_le in H; auto.
+  rewrite !sub_link. destruct (minus_spec X Wb Fx Fw Px Pw) as [R1 [R2 _]].
+  destruct (minus_spec X Wb' Fx Fw' Px Pw') as [Q1 [Q2 _]].
+  apply ltb_false_of_le; auto. rewrite R1, Q1. apply rnd_mono. lra.
+Qed.
+
+Lemma fact_add_ok M m w : okV M -> okV m -> okV w ->
+  SFltb w (f64_sub M m) = true -> okV (f64_add m w).
+Proof.
+  intros HM Hm Hw. destruct (lift M HM) as [MB [<- [FM [SM PM]]]]. destruct (lift m Hm) as [mB [<- [Fm [Sm Pm]]]].
+  destruct (lift w Hw) as [Wb [<- [Fw [Sw Pw]]]].
+  rewrite sub_link, add_link'. destruct (minus_spec MB mB FM Fm PM Pm) as [R1 [R2 _]].
+  intros H. apply ltb_true_lt in H; auto. rewrite R1 in H.
+  apply lt_rnd_le in H; [|apply F64_B2R].
+  destruct (plus_spec_bounded mB Wb MB Fm Fw Pm Pw Sm Sw) as [Q1 [Q2 Q3]]; [lra|].
+  apply okV_B2SF; auto.
+Qed.
+
+Lemma fact_sub_ok M m w : okV M -> okV m -> okV w ->
+  SFltb w (f64_sub M m) = true -> okV (f64_sub M w).
+Proof.
+  intros HM Hm Hw. destruct (lift M HM) as [MB [<- [FM [SM PM]]]]. destruct (lift m Hm) as [mB [<- [Fm [Sm Pm]]]].
+  destruct (lift w Hw) as [Wb [<- [Fw [Sw Pw]]]].
+  rewrite !sub_link. destruct (minus_spec MB mB FM Fm PM Pm) as [R1 [R2 _]].
+  intros H. apply ltb_true_lt in H; auto. rewrite R1 in H.
+  apply lt_rnd_le in H; [|apply F64_B2R].
+  destruct (minus_spec MB Wb FM Fw PM Pw) as [Q1 [Q2 Q3]].
+  apply okV_B2SF; auto. apply Q3; auto. lra.
+Qed.
+
+Lemma fact_gap_ok M m : okV M -> okV m -> SFltb M m = false -> okV (f64_sub M m).
+Proof.
+  intros HM Hm. destruct (lift M HM) as [MB [<- [FM [SM PM]]]]. destruct (lift m Hm) as [mB [<- [Fm [Sm Pm]]]].
+  intros H. apply ltb_false_le in H; auto.
+  rewrite sub_link. destruct (minus_spec MB mB FM Fm PM Pm) as [R1 [R2 R3]].
+  apply okV_B2SF; auto.
+Qed.
+
+Lemma fact_sub_self x : okV x -> SFltb (S754_zero false) (f64_sub x x) = false.
+Proof.
+  intros Hx. destruct (lift x Hx) as [X [<- [Fx [Sx Px]]]].
+  rewrite sub_link. destruct (minus_spec X X Fx Fx Px Px) as [R1 [R2 _]].
+  change (S754_zero false) with (B2SF (B754_zero false : bf64)).
+  apply ltb_false_of_le; auto. rewrite R1. replace (B2R X - B2R X) with 0 by lra. rewrite rnd_0. cbn. lra.
+Qed.
